@@ -4,7 +4,7 @@
    they are leaves of the parse tree, the parse tree's yield is the token sequence
    (soundness of the validated front-end tables), and the tokenizer strips dollars. *)
 From Coq Require Import List Arith Lia Bool.
-From Kiki Require Import Base.Ord Base.Chars Data DataProofs Np Lex.Model Lex.NoPanic Lex.Dollar Lex.Spans LR.Driver LR.Grammar LR.Inv LR.Sound LR.Validate LR.ValidateProofs
+From Kiki Require Import Base.Ord Base.Chars Data DataProofs Np Lex.Model Lex.NoPanic Lex.Dollar Lex.Spans LR.Driver LR.Grammar LR.Inv LR.Sound LR.ErrPos LR.Validate LR.ValidateProofs
   Front.KikiGrammar Front.Cst2Ast Front.Parse Front.KikiValid Front.CstTotal Ast.Validate Ast.WF Ast.ValidateProofs Ast.VWF Ast.NoPanic Pipeline.
 From Kiki Require Gen.KikiAnn.
 Import ListNotations.
@@ -136,4 +136,37 @@ Proof.
   unfold front_end. apply np_bind.
   - intros site. apply (tokenize_never_panics src site).
   - intros tokens Htok. apply np_bind; [apply np_front_parse, Htok|]. intros ast _. apply np_validate_ast.
+Qed.
+
+(* ---------- C09: a syntax error is exact ---------- *)
+
+(* When the parser rejects, the error names the first token after which no valid file can
+   continue, with the byte span and the text of that token in the source; at the end of the
+   input it is the empty span at the end of the source. *)
+Theorem front_parse_error_exact src tokens fuel e :
+  tokenize src = Ok tokens -> front_parse fuel src tokens = Err e ->
+  exists consumed rest,
+    tokens = consumed ++ rest /\
+    (forall x r z, rest = x :: r -> ~ sentence token_kind kiki_ptable (consumed ++ x :: z)) /\
+    match rest with
+    | [] => e = EParse (blen src) [] (blen src)
+    | tk :: _ => exists pre mid post, src = pre ++ mid ++ post /\ token_start tk = Ok (blen pre) /\
+                                      token_content_len tk = blen mid /\ e = EParse (blen pre) mid (blen pre + blen mid)
+    end.
+Proof.
+  intros Htok H. unfold front_parse in H.
+  destruct (parse token_kind kiki_ptable fuel tokens) as [t|tok|site|] eqn:Ep; try discriminate.
+  - destruct (a_file t); discriminate.
+  - pose proof (validate_parts _ _ _ kiki_tables_valid) as (Hfc & _).
+    destruct (ErrPos.reject_position token_kind kiki_ptable _ (fseq Gen.KikiAnn.kiki_ft)
+                (FirstOK_of_closed token_kind kiki_ptable _ Hfc) (validate_Inv _ _ _ kiki_tables_valid) fuel tokens tok Ep)
+      as (consumed & rest & Hw & Htk & _ & Hlate).
+    exists consumed, rest. split; [exact Hw|]. split; [exact Hlate|].
+    destruct rest as [|tk rest']; cbn in Htk; subst tok.
+    + cbn in H. injection H as <-. reflexivity.
+    + assert (Hin : In tk tokens) by (rewrite Hw; apply in_or_app; right; left; reflexivity).
+      destruct (tokenize_spans src tokens Htok tk Hin) as (pre & mid & post & Hsrc & Hs & Hl).
+      exists pre, mid, post. split; [exact Hsrc|]. split; [exact Hs|]. split; [exact Hl|].
+      unfold unexpected_to_err in H. rewrite Hs in H. cbn [bind] in H. rewrite Hl in H.
+      rewrite (slice_app' src pre mid post _ _ Hsrc eq_refl eq_refl) in H. cbn in H. injection H as <-. reflexivity.
 Qed.
